@@ -7,8 +7,11 @@
    1. one image-level step / run with the FAT-value frame (relative to the clusters that were free at the start)
    2. the decoder on an image that differs only in free clusters: intact trees decode alike
    3. the root scan when one short slot is rewritten with the same name and attribute bytes
-   4. the session: open, stamps, flush
-   5. the theorems: C04_session_flush_decodes, format ; create ; ops ; flush, the state before the flush (C03) *)
+   4. the session: create_file writes bytes, geometry, open, stamps, flush on the image, the node of the open file;
+      session_core (the state at the flush) and session_flush_decodes (= C04_session_flush_decodes)
+   6. counting free clusters and Spec/Wf.wf_issues around one file     7. a well-formed volume has no broken chain
+   The composition with format_volume (C04_session_format_decodes) and the state BEFORE the flush
+   (C03_session_deferred_writeback) are in Proofs/VolSessionFormat.v; examples in Proofs/VolSessionExamples.v. *)
 From Coq Require Import NArith ZArith Lia List Bool FMapPositive.
 From FatVerif Require Import Model.Base Model.Str Model.Slot Model.Time Model.Table Model.Fat Model.FileM Model.Name
   Model.ShortName Model.DirSlots Model.VolDir Model.VolFile Model.FlushM Model.VolSession Spec.Image Spec.Abs Spec.ByteFile
@@ -847,7 +850,9 @@ Lemma create_scan im name now range im1 :
        dir_scan (set_nth k s' ss') 0 [] false = (es1 ++ mk_entry pk s' (N.of_nat k) false :: es2, ls, [])) /\
     e_lfn ne = stored_lfn name /\ e_lfn_ok ne = true /\ e_attr ne = 0 /\ e_size ne = 0 /\ e_cluster ne = 0 /\
     sfn_legal_b (e_sfn ne) = true /\ ~ In (e_sfn ne) (map e_sfn es) /\
-    e_first_slot ne = fst range /\ e_sfn_slot ne + 1 = snd range.
+    e_first_slot ne = fst range /\ e_sfn_slot ne + 1 = snd range /\
+    (forall i, (i < root_slot_count (parse_geom im))%nat -> (N.of_nat i < fst range \/ snd range <= N.of_nat i) ->
+       nth i ss' [] = nth i (root_region_slots (parse_geom im) im) []).
 Proof.
   intros Hg Hiss Hnow H. set (g := parse_geom im) in *.
   destruct (abs_scan_of im (fg_bits g Hg)) as (es & ls & iss & Hscan & Habs). fold g in Hscan, Habs.
@@ -865,7 +870,24 @@ Proof.
   split; [exact Habs|]. split; [exact E1|]. split; [exact Hsh|]. split; [reflexivity|]. split; [exact E2|].
   split; [exact Hk|]. split; [exact Hslot|]. split; [exact He|]. split; [exact Hrw|].
   split; [exact E3|]. split; [exact E4|]. split; [exact E6|]. split; [exact E8|]. split; [rewrite E9; reflexivity|].
-  split; [rewrite E5; exact HL|]. split; [rewrite E5; exact HU|]. split; [exact P1|exact P2].
+  split; [rewrite E5; exact HL|]. split; [rewrite E5; exact HU|]. split; [exact P1|]. split; [exact P2|].
+  (* the slot frame of write_entry *)
+  unfold create_entry, lift in E.
+  destruct (check_for_existence upper oem (root_region_slots g im) name (Some false)) as [[ev|a']| | |] eqn:C; try discriminate.
+  destruct (check_fresh_inv _ _ _ _ _ _ C) as (_ & HL' & _).
+  destruct (stamp_create now) as [st'| | |] eqn:ST'; try discriminate.
+  destruct (write_entry FixedRoot 0 (root_region_slots g im) name (create_sfn_entry false a' 0 None st')) as [w ss''] eqn:W.
+  destruct w as [[p q]| | |]; try discriminate. cbn [bind] in E. injection E as <- <-.
+  pose proof (create_sfn_entry_live false a' 0 None st' HL' ltac:(lia) eq_refl (stamp_create_ranges now st' Hnow ST')) as Hlive.
+  destruct (write_entry_refines FixedRoot 0 false _ name _ es ls p q ss'' Hscan (root_len_bound g im (fg_root g Hg)) Hlive W)
+    as (_ & _ & _ & _ & _ & _ & _ & _ & _ & _ & _ & _ & _ & _ & _ & _ & _ & _ & _ & _ & _ & Hfr & _ & _ & Hlen).
+  intros i Hi Hout. cbn [fst snd] in Hout.
+  pose proof (proj1 (proj1 (root_region_shape g im))) as L0. pose proof (Hlen eq_refl) as L1.
+  assert (i < length (root_region_slots g im))%nat as Hi0 by (rewrite L0; exact Hi).
+  assert (i < length ss'')%nat as Hi1 by (rewrite L1; exact Hi0).
+  specialize (Hfr i Hi0 Hout).
+  rewrite (nth_error_nth' ss'' [] Hi1), (nth_error_nth' (root_region_slots g im) [] Hi0) in Hfr.
+  injection Hfr as Hfr. exact Hfr.
 Qed.
 
 (* the state in which a session is when its file is flushed, and what the flush writes: [s'] = the 32 bytes of the short
@@ -887,6 +909,8 @@ Lemma session_core acc im fi name now ops range im1 :
     e_lfn ne = stored_lfn name /\ e_lfn_ok ne = true /\ e_attr ne = 0 /\ e_size ne = 0 /\ e_cluster ne = 0 /\
     sfn_legal_b (e_sfn ne) = true /\ ~ In (e_sfn ne) (map e_sfn es) /\
     e_first_slot ne = fst range /\ e_sfn_slot ne + 1 = snd range /\ e_sfn_slot ne = N.of_nat k /\
+    (forall i, (i < root_slot_count g)%nat -> (N.of_nat i < fst range \/ snd range <= N.of_nat i) ->
+       nth i ss' [] = nth i (root_region_slots g im) []) /\
     (* the session *)
     sess_create upper oem im fi name now = Some st1 /\ s_im st1 = im1 /\
     sess_run g acc st1 ops = (st2, rs) /\
@@ -902,8 +926,8 @@ Proof.
   pose proof (fixed_root_vgeom_ok g Hg) as Hok.
   destruct (create_scan im name now range im1 Hg Hiss Hnow Hc)
     as (es & ls & es1 & es2 & ne & ss' & k & pk & Habs & Ees & Hsh & Him1 & Hscan1 & Hk & Hslot & Hne & Hrw
-        & L1 & L2 & A1 & S1 & C1 & HL & HU & P1 & P2).
-  fold g in Habs, Hsh, Him1, Hk.
+        & L1 & L2 & A1 & S1 & C1 & HL & HU & P1 & P2 & Hsf).
+  fold g in Habs, Hsh, Him1, Hk, Hsf.
   pose proof (vol_create_confined upper oem im name now _ im1 Hg Hc) as (Hout & _ & Hpg1 & _ & Hfv1 & _).
   fold g in Hout, Hpg1, Hfv1.
   pose proof (vol_create_bytes_ok upper oem im name now _ im1 Hnow Hb Hc) as Hb1.
@@ -1019,15 +1043,17 @@ Theorem session_flush_decodes acc im fi name now ops range im1 :
        img_get (s_im st) a = img_get im a) /\
     (forall c, 2 <= c < g_clusters g + 2 -> fat_val g im c <> FFree ->
        fat_val g (s_im st) c = fat_val g im c /\ cluster_bytes g (s_im st) c = cluster_bytes g im c) /\
-    (forall c, 2 <= c < g_clusters g + 2 -> fat_val g im c = FFree -> ~ In c l -> fat_val g (s_im st) c = FFree).
+    (forall c, 2 <= c < g_clusters g + 2 -> fat_val g im c = FFree -> ~ In c l -> fat_val g (s_im st) c = FFree) /\
+    (forall i, (i < root_slot_count g)%nat -> (N.of_nat i < fst range \/ snd range <= N.of_nat i) ->
+       nth i (root_region_slots g (s_im st)) [] = nth i (root_region_slots g im) []).
 Proof.
   intros g Hg Hb Hfi Hiss Hint Hnow Hops Hclk Hc.
   pose proof (fixed_root_vgeom_ok g Hg) as Hok.
   destruct (session_core acc im fi name now ops range im1 Hg Hb Hfi Hiss Hnow Hops Hclk Hc)
     as (es & ls & es1 & es2 & ne & ss' & k & pk & st1 & st2 & rs & sz2 & l2 & s'
-        & Habs & Ees & Hsh & Him1 & Hpg1 & Hscan1 & Hk & Hne & Hrw & L1 & L2 & A1 & S1 & C1 & HL & HU & P1 & P2 & Hslot
+        & Habs & Ees & Hsh & Him1 & Hpg1 & Hscan1 & Hk & Hne & Hrw & L1 & L2 & A1 & S1 & C1 & HL & HU & P1 & P2 & Hslot & Hsf
         & Hcreate & Hst1 & Hrun & V2 & Hbf & F2 & Hrs2 & Hpg2 & X1 & X2 & X3 & X4 & X5).
-  fold g in Habs, Hsh, Him1, Hpg1, Hk, Hrun, V2, Hbf, F2, Hrs2, Hpg2, X5.
+  fold g in Habs, Hsh, Him1, Hpg1, Hk, Hrun, V2, Hbf, F2, Hrs2, Hpg2, X5, Hsf.
   set (im2 := s_im st2) in *. set (st3 := vol_flush_entry g st2) in *. set (im3 := s_im st3) in *.
   set (s := nth k ss' []) in *. set (ne' := mk_entry pk s' (N.of_nat k) false).
   destruct (mk_entry_same_id pk s s' (N.of_nat k) false X2) as (I1 & I2 & I3 & I4 & I5 & I6). cbv zeta in I1, I2, I3, I4, I5, I6.
@@ -1105,9 +1131,15 @@ Proof.
     - rewrite (fat_val_frame g im2 im3 c Hg Hout23 (in_range_intro g c R)), Fv. apply (fat_val_frame g im im1 c Hg Hout01 (in_range_intro g c R)).
     - rewrite (cluster_bytes_frame g im2 im3 c ltac:(pose proof (fg_bps g Hg); lia) Hout23), Cb.
       apply (cluster_bytes_frame g im im1 c ltac:(pose proof (fg_bps g Hg); lia) Hout01). }
-  intros c R Hf Hnin. rewrite (fat_val_frame g im2 im3 c Hg Hout23 (in_range_intro g c R)).
-  apply (rf_else g im1 im2 l2 F2 c R Hnin). unfold free0.
-  rewrite (fat_val_frame g im im1 c Hg Hout01 (in_range_intro g c R)). exact Hf.
+  split.
+  { intros c R Hf Hnin. rewrite (fat_val_frame g im2 im3 c Hg Hout23 (in_range_intro g c R)).
+    apply (rf_else g im1 im2 l2 F2 c R Hnin). unfold free0.
+    rewrite (fat_val_frame g im im1 c Hg Hout01 (in_range_intro g c R)). exact Hf. }
+  intros i Hi Hrange.
+  rewrite (root_region_same g _ im3 X5), (root_region_put g im2 (set_nth k s' ss') Hsh3).
+  rewrite (nth_set_nth [] s' ss' i k) by (rewrite (proj1 Hsh); exact Hk).
+  assert (e_first_slot ne <= N.of_nat k) as Hle by (rewrite Hne; unfold mk_entry; cbn [e_first_slot]; lia).
+  destruct (Nat.eqb_spec i k) as [->|_]; [exfalso; lia|]. exact (Hsf i Hi Hrange).
 Qed.
 End SessionThm.
 
@@ -1197,3 +1229,47 @@ Proof.
     intros x Hx. destruct (Hall x ltac:(lia)) as [F|[_ Hin]]; [left; exact F|right; right].
     rewrite Hm'. destruct (in_dec N.eq_dec x l); [reflexivity|contradiction].
 Qed.
+
+(* ================================================================ 7. a well-formed volume has no broken chain *)
+(* a node without C03 issue has no broken chain, and neither has any node below it *)
+Fixpoint node_issues_intact fold g (n : node) {struct n} : forall pc, Wf.node_issues fold g pc n = [] -> node_intact n = true.
+Proof.
+  destruct n as [e ch content|e ch children iss labels|e]; intros pc H.
+  - cbn [Wf.node_issues] in H. cbn [node_intact].
+    destruct (e_size e =? 0).
+    + destruct (e_cluster e =? 0); [reflexivity|discriminate].
+    + destruct (e_cluster e =? 0); [discriminate|]. destruct ch; [reflexivity|discriminate].
+  - rewrite node_intact_dir. cbn [Wf.node_issues] in H.
+    destruct (e_cluster e =? 0); [discriminate|]. destruct ch as [l|]; [|discriminate]. cbn [orb is_some andb].
+    apply app_eq_nil in H. destruct H as [_ H]. apply app_eq_nil in H. destruct H as [_ H].
+    apply app_eq_nil in H. destruct H as [_ H].
+    induction children as [|c cr IH]; [reflexivity|].
+    apply app_eq_nil in H. destruct H as [H1 H2]. cbn [forallb].
+    rewrite (node_issues_intact fold g c _ H1). exact (IH H2).
+  - reflexivity.
+Qed.
+
+Lemma wf_intact fold im : g_bits (parse_geom im) <> 32 -> Wf.wf_issues fold im = [] -> forallb node_intact (v_root (abs im)) = true.
+Proof.
+  intros Hb H. destruct (abs_scan_of im Hb) as (es & ls & iss & _ & Habs).
+  rewrite (wf_issues_fixed fold im _ im es ls iss Hb Habs) in H. cbv zeta in H.
+  destruct (Wf.own_clusters _ _) as [owned cross].
+  apply app_eq_nil in H. destruct H as [_ H]. apply app_eq_nil in H. destruct H as [_ H].
+  apply app_eq_nil in H. destruct H as [H _].
+  rewrite Habs. cbn [abs_fixed v_root]. unfold Wf.nodes_issues in H.
+  induction (decode_entries (parse_geom im) im MAX_DEPTH es) as [|n r IH]; [reflexivity|].
+  cbn [flat_map] in H. apply app_eq_nil in H. destruct H as [H1 H2]. cbn [forallb].
+  rewrite (node_issues_intact fold _ n _ H1). exact (IH H2).
+Qed.
+
+Lemma wf_root_issues fold im : g_bits (parse_geom im) <> 32 -> Wf.wf_issues fold im = [] -> v_root_issues (abs im) = [].
+Proof.
+  intros Hb H. destruct (abs_scan_of im Hb) as (es & ls & iss & _ & Habs).
+  rewrite (wf_issues_fixed fold im _ im es ls iss Hb Habs) in H. cbv zeta in H.
+  destruct (Wf.own_clusters _ _) as [owned cross].
+  apply app_eq_nil in H. destruct H as [H _]. apply map_eq_nil in H. rewrite Habs. exact H.
+Qed.
+
+Lemma wf_session_premises fold im : g_bits (parse_geom im) <> 32 -> Wf.wf_issues fold im = [] ->
+  v_root_issues (abs im) = [] /\ forallb node_intact (v_root (abs im)) = true.
+Proof. intros Hb H. exact (conj (wf_root_issues fold im Hb H) (wf_intact fold im Hb H)). Qed.
